@@ -1,8 +1,8 @@
 """C17 - model bookkeeping stays consistent under any sequence of updates.
 
 E2 explicit-state search: states are reached by histories of the public update operations of dfols.model.Model
-(change_point, add_new_sample, add_new_point, swap_points, shift_base, save_point; get_final_results is queried in
-every state) drawn from a small alphabet of points and residual letters that are *relative to the incumbent*
+(change_point, add_new_sample, add_new_point, swap_points, shift_base, save_point - with fresh arrays and with the model's
+own views, as the controller passes them -; get_final_results is queried in every state) drawn from a small alphabet of points and residual letters that are *relative to the incumbent*
 (better / worse / exact tie / sign-flipped tie / NaN / inf), with and without a regulariser.  The reference is a boring
 shadow model (lists of absolute points, sample lists, evaluation numbers).  Thorough additionally replays the operation
 traces of real solver runs with every single (and, on a reduced alphabet, every pair of) inserted operation(s).
@@ -138,6 +138,7 @@ def ops(st, params):
     out.append(["shift", "dyadic"])
     for k in range(K):
         out.append(["save_k", k])
+    out.append(["save_view"])
     for pi in range(min(2, len(pts))):
         for L in letters:
             out.append(["save_new", pi, L])
@@ -216,6 +217,17 @@ def apply(st, op, params, check=True):
             x = s.pts[k][0].copy()
             r = s.mean(k)
             _save(m, s, x, r, len(s.pts[k][1]), s.pts[k][2])
+        elif kind == "save_view":
+            # save the incumbent exactly as Controller.soft_restart does: the model's own accessors are passed straight in
+            # (ropt() is a view of the residual table), so the saved copy must not alias model storage
+            k = int(m.kopt)
+            if k >= len(s.pts) or k != s.kopt:
+                raise Disabled("incumbent not in step with the shadow")
+            x, r, ns, ev = s.pts[k][0].copy(), s.mean(k), len(s.pts[k][1]), s.pts[k][2]
+            m.save_point(m.xopt(abs_coordinates=True), m.ropt(), m.nsamples[m.kopt], m.eval_num[m.kopt], x_in_abs_coords=True)
+            obj = s.objof(x, r)
+            if s.saved is None or np.isnan(s.saved["obj"]) or obj <= s.saved["obj"]:
+                s.saved = {"x": x, "r": r.copy(), "ns": ns, "ev": ev, "obj": obj}
         elif kind == "save_new":
             _, pi, L = op
             x = s.xbase + np.array(PTS[pi]) + np.array([0.125, 0.125])
@@ -381,6 +393,11 @@ def key(st):
              m.model_const.tobytes()]
     if m.objsave is not None:
         parts += [np.asarray(m.xsave).tobytes(), np.asarray(m.rsave).tobytes(), np.array([m.objsave, m.nsamples_save, m.eval_num_save], dtype=float).tobytes()]
+        # two states with equal bytes have the same futures only if they also alias the same storage: a saved field that is
+        # a view of a model table will change with it
+        alias = [bool(isinstance(a, np.ndarray) and isinstance(b, np.ndarray) and np.shares_memory(a, b))
+                 for a in (m.xsave, m.rsave, m.jacsave) for b in (m.points, m.fval_v, m.model_jac, m.xbase)]
+        parts.append(bytes(bytearray(int(t) for t in alias)))
     else:
         parts.append(b"nosave")
     for p in s.pts:
@@ -512,6 +529,7 @@ def _alphabet_for(trace_ctor, reduced=False):
             out.append(["swap", k1, k2])
     out.append(["shift", "xopt"])
     out.append(["shift", "dyadic"])
+    out.append(["save_view"])
     for L in letters:
         out.append(["save_new", 0, L])
     if not reduced:
